@@ -32,6 +32,12 @@ func main() {
 			lines = append(lines, l)
 		}
 	}
+	if os.Getenv("PRINT") != "" {
+		for _, l := range lines {
+			fmt.Println(l)
+		}
+		return
+	}
 	gos := make([]string, len(lines))
 	for i, l := range lines {
 		func() {
